@@ -697,19 +697,22 @@ var verifC19dGset = []float64{-2, 1, -0.5}
 // VerifC19_DriverBFGS: BFGS with Backtracking or Bisection.
 func VerifC19_DriverBFGS() {
 	l := verifParam("c19dlim", 2)
-	verifC19dLocal(verifC19dBFGS, verifC19dOpt{fLo: l, fHi: l + 1, gHi: l, itHi: l, initHi: 2, recLo: -2, recHi: -2, gset: verifC19dGset})
+	l2 := verifParam("c19dlim2", 1)
+	verifC19dLocal(verifC19dBFGS, verifC19dOpt{fLo: l, fHi: l + 1, gHi: l2, itHi: l2, initHi: 2, recLo: -2, recHi: -2, gset: verifC19dGset})
 }
 
 // VerifC19_DriverLBFGS: LBFGS (Store 1..2) with Backtracking or Bisection.
 func VerifC19_DriverLBFGS() {
 	l := verifParam("c19dlim", 2)
-	verifC19dLocal(verifC19dLBFGS, verifC19dOpt{fLo: l, fHi: l + 1, gHi: l, itHi: l, initHi: 2, recLo: -2, recHi: -2, gset: verifC19dGset})
+	l2 := verifParam("c19dlim2", 1)
+	verifC19dLocal(verifC19dLBFGS, verifC19dOpt{fLo: l, fHi: l + 1, gHi: l2, itHi: l2, initHi: 2, recLo: -2, recHi: -2, gset: verifC19dGset})
 }
 
 // VerifC19_DriverNewton: Newton (Hessian callbacks) with Backtracking or Bisection.
 func VerifC19_DriverNewton() {
 	l := verifParam("c19dlim", 2)
-	verifC19dLocal(verifC19dNewton, verifC19dOpt{fLo: l, fHi: l + 1, gHi: 1, hHi: l, itHi: l, initHi: 3, recLo: -2, recHi: -2, gset: verifC19dGset, hset: []float64{2, -1}})
+	l2 := verifParam("c19dlim2", 1)
+	verifC19dLocal(verifC19dNewton, verifC19dOpt{fLo: l, fHi: l + 1, gHi: 1, hHi: l2, itHi: l2, initHi: 3, recLo: -2, recHi: -2, gset: verifC19dGset, hset: []float64{2, -1}})
 }
 
 // VerifC19_DriverNelderMead: NelderMead (no gradient), limits 1..4 evaluations.
@@ -721,7 +724,8 @@ func VerifC19_DriverNelderMead() {
 // VerifC19_DriverCG: CG (FletcherReeves / PolakRibierePolyak; thorough all five variants).
 func VerifC19_DriverCG() {
 	l := verifParam("c19dlim", 2)
-	verifC19dLocal(verifC19dCG, verifC19dOpt{fLo: l + 1, fHi: l + 1, gHi: l, itHi: l, initHi: 2, recLo: -2, recHi: -2, gset: verifC19dGset})
+	l2 := verifParam("c19dlim2", 1)
+	verifC19dLocal(verifC19dCG, verifC19dOpt{fLo: l + 1, fHi: l + 1, gHi: l2, itHi: l2, initHi: 2, recLo: -2, recHi: -2, gset: verifC19dGset})
 }
 
 // ---------------------------------------------------------------------------
